@@ -21,7 +21,7 @@ claim('C11', 'model_checking',
       'exhaustive enumeration of all partitions with <= k cuts (plus byte-at-a-time schedules) of every corpus stream, executed on the real loader / bus transport, differential against the unsplit run and the reference splitter',
       'The read schedule is the only nondeterminism of framing. For each stream (1-3 messages of varied sizes and byte orders, including messages of types the implementation does not know, optionally an invalid message and trailing bytes) every partition '
       'with at most k cut points and the byte-wise partitions are executed on the real DBusMessageLoader; the popped message sequence and the place where corruption is declared must equal the unsplit run, '
-      'which must equal the independent stream splitter. The same is done through the real socket transport of an in-process bus across the BEGIN/message boundary, and with libdbus as the server end of a peer-to-peer connection (harness/vserve) driven once by blocking iterations (dbus_connection_read_write_dispatch: the do_iteration path) and once by its watches, where the client writes a pipelined handshake plus 3 or 40 messages (5 KB, more than one 2048-byte read behind BEGIN) with every single cut and double cuts around BEGIN and the read-size boundaries.',
+      'which must equal the independent stream splitter. The same is done through the real socket transport of an in-process bus across the BEGIN/message boundary, and with libdbus as the server end of a peer-to-peer connection (harness/vserve) driven once by blocking iterations (dbus_connection_read_write_dispatch: the do_iteration path) and once by its watches, where the client writes a pipelined handshake plus 3 or 40 messages (5 KB, more than one 2048-byte read behind BEGIN) with every single cut and double cuts around BEGIN and the read-size boundaries; and a 120-message stream (calls among them, which the server answers) after which the writer closes before the reader has run.',
       'Streams outside the corpus and partitions with more than k cuts (other than byte-wise) are not covered. Unix fd passing interaction with max_to_read is covered by running every partition with and without honouring the hint.',
       'DESIGN.md section 4 C11')
 
